@@ -228,7 +228,7 @@ PROPS["C01"] = {
                      "and of each ds:Signature) and what xmlenc decrypts are inputs computed by the library's own code in the harness (hook verif_hooks.go exposes unmarshalElement / decryptElement); "
                      "that a struct view is a function of the element's canonical form without the removed Signature is NOT proved (tested by comment / CDATA / processing-instruction / prefix / white-space operations and the forgery oracle)",
                      "exclusive canonicalisation is modelled by an injective rendering of exactly the information the bytes carry (Model/Tree.lean header); other canonicalisation algorithms are outside the model (honest signers use exc-c14n)",
-                     "ParseXMLArtifactResponse's envelope handling is covered at struct level only (C03/C04 artifact theorems)"],
+                     "the HTTP leg of artifact resolution (ParseResponse with SAMLart) is covered at struct level (C04); ParseXMLArtifactResponse is modelled at tree level"],
     "assumptions": ["honest signers sign with enveloped-signature + exclusive c14n and one Reference per SignedInfo (what this library's IdP and the harness do)",
                     "certificates are within their validity period at the validation clock"],
     "rule": "construction scripts: honest phase (assertion for alice signed / Response signed / both / neither, by idp / idp2 / attacker key, plaintext or encrypted to the SP) x trust configuration "
@@ -245,7 +245,7 @@ BASE_NOTE = ("Trusted: Lean kernel (axioms propext, Classical.choice, Quot.sound
              "the correspondence harness and fact extractor; modelled-not-verified parts are listed in DESIGN.md §7.6/§7.7 and in the evidence's trusted_base. ")
 NOTES = {
     "C01": "Depth: tree level. Struct views (encoding/xml), ds:Signature views and decryption are inputs computed by the real code; that identity is a function of the canonical form is tested, not proved; "
-           "only exclusive c14n + enveloped transform; artifact envelope at struct level only.",
+           "only exclusive c14n + enveloped transform.",
     "C07": "Partial for XML attribute positions: attribute values round-trip for every string without a carriage return (theorem C07_attr_roundtrip_partial, counterexample theorem, known finding c07-cr-in-xml-attribute); "
            "character data (NameID, attribute values) is proved for every XML character.",
     "C09": "Partial: totality of the library's own logic after parsing, and the inflate bound, are proved; termination/allocation of third-party parsers on arbitrary bytes is only sampled.",
